@@ -7,7 +7,7 @@ base ++ fed, where `fed` is exactly what went through the hasher.
 from .common import *
 from .sync import mk_world, PROFILES
 from pyvc import fsmodel as FS
-from pyvc.engine import ExcClass
+from pyvc.engine import ExcClass, CheckerError
 
 DEPENDS = ['sync']
 
@@ -355,7 +355,7 @@ class OwEnter(Unit):
         w = vc.world
         ow = a.self
         h = ow.f['_filehandle']
-        d = ow.f['$dirs']
+        d = NS(sandbox=ow.f['_sandbox_folder'])
         yield 'only_on_a_fresh_writer', SBool.of(o.stored is False)
         yield 'returns_the_wrapper', SBool.of(ret is h and isinstance(h, PyObj))
         fh = h.f['_write_stream']
@@ -371,6 +371,30 @@ class OwEnter(Unit):
     def exc(self, vc, a, o, e):
         yield 'refused_only_when_reused', SBool.of(o.stored is True or e.cls.name == 'OSError')
         yield 'world_untouched', SBool(vc.world.ent == o.ent)
+
+    # callee mode (fresh writer only: the callers under contract create the writer themselves)
+    def pre_callee(self, vc, a):
+        ow = a.self
+        yield 'fresh_writer', SBool.of(ow.f.get('_filehandle') is None and ow.f.get('_stored') is False)
+
+    def havoc(self, vc, I, a):
+        ow = a.self
+        w = FS.fs(I)
+        u = vc.fresh_key('uuid')
+        sb = ow.f['_sandbox_folder']
+        p = FS.PathVal(sb.base, sb.parts + (u,))
+        # uuid4 names are fresh (E-UUID): nothing lives at that sandbox path yet
+        vc.assume(b_and(w.inode_at(p.pid()) == 0, b_not(w.is_dir(p.pid()))))
+        ino = w.new_inode(vc, b'')
+        w.set_entry(p.pid(), ino)
+        fh = EM.FileObj(w, ino, 'wb', path=p, at_end=True)
+        hs = EM.Hasher(conc(ow.f['_hash_type']))
+        h = new_obj(I, 'utils:HashWriterWrapper', _write_stream=fh, _hash_type=ow.f['_hash_type'], _hash=hs, _position=SInt.of(0))
+        h.f['$base'] = b''
+        ow.f['_obj_path'] = p
+        ow.f['_filehandle'] = h
+        EM.effect(I, 'create', file=fh, path=p, ino=ino)
+        return h
 
 
 def _ow_hook(unit):
@@ -422,7 +446,7 @@ class OwExit(Unit):
         n = ow.f['_loose_prefix_len']
         fed = SBytes.of(h.f['_hash'].fed)
         key = EM.H(ow.f['_hash_type'], fed)
-        dest = loose_pid(ow.f['$dirs'].loose, n, key)
+        dest = loose_pid(ow.f['_loose_folder'], n, key)
         dino = w.inode_at(dest)
         o = NS(fed=fed, key=key, dest=dest, dest_ino=dino, dest_data=w.data(dino), ino=fh.ino, fh=fh,
                fds=[f.num for f in w.open_fds if f is not fh.fdrec], ent=w.ent, sandbox=ow.f['_obj_path'].pid(),
@@ -437,10 +461,11 @@ class OwExit(Unit):
         # the sandbox inode is referenced by the sandbox entry only (a uuid name is fresh): in particular not by the
         # destination
         p = ow.f['_obj_path'].pid()
-        yield 'sandbox_entry', w.inode_at(p) == ow.f['$ino']
+        ino_ = ow.f['_filehandle'].f['_write_stream'].ino
+        yield 'sandbox_entry', w.inode_at(p) == ino_
         k = EM.H(ow.f['_hash_type'], ow.f['_filehandle'].f['_hash'].fed)
-        dest = loose_pid(ow.f['$dirs'].loose, ow.f['_loose_prefix_len'], k)
-        yield 'dest_is_another_file', w.inode_at(dest) != ow.f['$ino']
+        dest = loose_pid(ow.f['_loose_folder'], ow.f['_loose_prefix_len'], k)
+        yield 'dest_is_another_file', w.inode_at(dest) != ino_
         # layout invariant of a container: object paths (sandbox/<uuid>, loose/[<prefix>/]<rest>) are never directories
         yield 'sandbox_path_is_no_directory', b_not(w.is_dir(p))
         yield 'loose_path_is_no_directory', b_not(w.is_dir(dest))
@@ -479,6 +504,58 @@ class OwExit(Unit):
         yield 'sandbox_file_removed', w.inode_at(o.sandbox) == 0
         yield 'marked_stored', SBool.of(a.self.f['_stored'] is True)
         yield 'no_descriptor_leaked', SBool.of([f.num for f in w.open_fds] == o.fds)
+
+
+    # ---- callee mode: the normal, non-aborted exit of a writer whose handle the caller did not close
+    def bind_actual(self, I, f, args, kwargs):
+        a = super().bind_actual(I, f, args, kwargs)
+        ow = a.self
+        h = ow.f.get('_filehandle')
+        a.which = 0
+        if a.exc_type is not None:
+            a.which = 1
+        elif isinstance(h, PyObj) and h.f['_write_stream'].closed:
+            a.which = 2
+        return a
+
+    def exc_cases(self, vc, I, a, o):
+        if a.which == 2:
+            yield 'ClosingNotAllowed', None, self._abort_effect
+
+    def _abort_effect(self, vc, I, a, o):
+        w = vc.world
+        ow = a.self
+        if not o.fh.closed:
+            o.fh.m_close(I)
+        w.set_entry(o.sandbox, 0)
+        ow.f['_stored'] = True
+
+    def havoc(self, vc, I, a):
+        w = vc.world
+        ow = a.self
+        o = a.o
+        if a.which == 2:
+            raise CheckerError('unreachable: the ClosingNotAllowed case is exceptional')
+        if a.which == 1:
+            self._abort_effect(vc, I, a, o)
+            ow.f['_filehandle'] = None if False else ow.f['_filehandle']
+            return None
+        fh = o.fh
+        fh._flush(I, 'ObjectWriter.__exit__')
+        w.set_synced(fh.ino, fh.content().length())
+        fh.m_close(I)
+        if o.trust:
+            ours = (o.dest_ino == 0)
+        else:
+            existing_ok = b_and(o.dest_ino != 0, EM.H(o.hname, o.dest_data) == o.key)
+            ours = b_not(existing_ok)
+        EM.effect(I, 'publish_loose', key=o.key, ino=fh.ino, ours=ours, dest=o.dest)
+        w.set_entry(o.dest, ite(ours, o.ino, o.dest_ino))
+        w.set_entry(o.sandbox, 0)
+        ow.f['_hashkey'] = o.key
+        ow.f['_filehandle'] = None
+        ow.f['_stored'] = True
+        return None
 
 
 class OwExitFault(OwExit):
